@@ -20,7 +20,7 @@ pub const REFERENCE_FILES: [&str; 12] = [
 ];
 
 pub fn bundled(name: &str) -> Result<Vec<u8>, String> {
-    std::fs::read(format!("/repo/testdata/{name}")).map_err(|e| format!("cannot read bundled file {name}: {e}"))
+    std::fs::read(crate::kit::repo_root().join("testdata").join(name)).map_err(|e| format!("cannot read bundled file {name}: {e}"))
 }
 
 pub fn decoder_preflight() -> Result<(), String> {
